@@ -1,5 +1,7 @@
 // Replay front-end: runs one saved case through the executor, no library involved.
 // usage: replay <file> [--quiet]      exit 0 pass, 1 violation, 2 not applicable
+// A file may hold several cases separated by lines "%%%% next case": they run one after the other in this process
+// (a failure that needs earlier calls in the same process); the result is that of the first failing case, else of the last.
 #include "abi.h"
 #include <cstdio>
 #include <cstring>
@@ -21,9 +23,26 @@ int main(int argc, char **argv) {
     }
     std::stringstream ss;
     ss << f.rdbuf();
-    std::string text = ss.str();
+    std::string all = ss.str(), text;
     static verif_result r;
-    int v = verif_run_case(text.data(), text.size(), &r);
+    int v = 0;
+    const std::string sep = "%%%% next case\n";
+    size_t pos = 0, index = 0;
+    while (pos <= all.size()) {
+        size_t e = all.find(sep, pos);
+        text = all.substr(pos, e == std::string::npos ? std::string::npos : e - pos);
+        pos = e == std::string::npos ? all.size() + 1 : e + sep.size();
+        bool blank = text.find_first_not_of(" \t\r\n") == std::string::npos;
+        if (blank && index > 0)
+            continue;
+        ++index;
+        v = verif_run_case(text.data(), text.size(), &r);
+        if (v == 1) {
+            if (index > 1 || pos <= all.size())
+                std::printf("case #%zu of the file fails\n", index);
+            break;
+        }
+    }
     if (!quiet || v == 1) {
         std::printf("executor: %s\nverdict: %d\nnontrivial: %d\ndigest: %016llx\nwork: %llu\nkey: %s\ntags: %s\n", verif_executor_name(), r.verdict,
                     r.nontrivial, r.digest, r.work, r.key, r.tags);
